@@ -310,14 +310,20 @@ Definition canonical_sig (s : bytes) : bool :=
   | _ => false
   end.
 
-(* a float the library writes back as given: an integer part without leading zero, at most six
-   decimals without trailing zero, at most fifteen significant digits, not "-0" *)
+(* an unsigned integer literal of JSON: 0, or a digit string without leading zero (no sign) *)
+Definition json_uint_text (t : bytes) : bool :=
+  match t with
+  | [] => false
+  | d :: r => all_digits t && (is_nil r || negb (Byte.eqb d b_zero))
+  end.
+(* a float the library writes back as given: ONE optional minus, an integer part without leading zero, at
+   most six decimals without trailing zero, at most fifteen significant digits, not "-0" *)
 Definition canonical_float (s : bytes) : bool :=
   let t := trim_minus s in
   match split_dot t with
-  | [i] => json_int_text t && (Nat.leb (length i) 15) && negb (has_minus s && (value_of_digits i =? 0))
+  | [i] => json_uint_text i && (Nat.leb (length i) 15) && negb (has_minus s && (value_of_digits i =? 0))
   | [i; f] =>
-    json_int_text i && all_digits f && negb (is_nil f) && Nat.leb (length f) 6 &&
+    json_uint_text i && all_digits f && negb (is_nil f) && Nat.leb (length f) 6 &&
     Nat.leb (length i + length f) 15 &&
     negb (Byte.eqb (last f b_zero) b_zero)
   | _ => false
